@@ -204,6 +204,8 @@ def main():
             continue
         seen.add(key)
         path = os.path.join(vlib.REPO, f)
+        lock = vlib.Lock()
+        lock.__enter__()        # the registered checks take the same lock: none of them sees a mutated tree
         lines = open(path).read().split("\n")
         lines[i] = new
         open(path, "w").write("\n".join(lines))
@@ -224,6 +226,7 @@ def main():
                     verdict = "SURVIVOR"
         finally:
             subprocess.run(["git", "-C", vlib.REPO, "checkout", "--", "."], check=True)
+            lock.__exit__(None, None, None)
         counts[verdict] = counts.get(verdict, 0) + 1
         rec = {"file": f, "line": i + 1, "what": what, "old": old.strip(), "new": new.strip(), "verdict": verdict, "where": where}
         open(OUT, "a").write(json.dumps(rec) + "\n")
